@@ -27,8 +27,8 @@ claim("C01", "proof",
       "SetItem/Set make T' = T[key := item] with every other key untouched and reject empty/oversized keys, nil values and negative priorities with T unchanged, "
       "Delete reports presence and removes exactly that key, MinItem/MaxItem return the extreme keys (walk, both directions), GetTotals returns cnt(T)/sumb(T); "
       "union/split/join carry the set-level specifications (membership, item-per-key with `that` taking precedence, search order); every lookup leaves all versions untouched. "
-      "EvictSomeItems is proved to change no version and no slot denotation; a successful Flush is proved to end with the root record as its last write (which is what re-open reads).",
-      A_COMMON + A_TREE + " Known findings: Exist has no error result (D9). Histories are covered by induction over calls (each call's relies are the previous calls' ensures), not by exploring sequences. NOT proved: that Flush leaves every slot denotation unchanged (it writes no slot itself, but its release loop needs a counting argument over possibly aliased version pins that the contracts do not carry), and that a re-opened store denotes the flushed trees (JSON root record, A8, and the read postulates); "
+      "EvictSomeItems and Flush are proved to change no version and no slot denotation (Flush: every version stays pinned until its own release, under the rely that distinct collections of a store have distinct version objects); a successful Flush is proved to end with the root record as its last write (which is what re-open reads).",
+      A_COMMON + A_TREE + " Known findings: Exist has no error result (D9). Histories are covered by induction over calls (each call's relies are the previous calls' ensures), not by exploring sequences. NOT proved: that a re-opened store denotes the flushed trees (JSON root record, A8, and the read postulates); "
       "value BYTES after evict/reload rest on C14+C09 (the abstract item identity is what lookups are proved to return).")
 
 claim("C13", "proof",
